@@ -250,8 +250,9 @@ func sameIface(a, b interface{}) bool {
 }
 
 func checkC16(e *core.Env) {
+	curEnv = e
 	e.SetRule("random service descriptors (0..3 unary, 0..3 stream methods, all flag mixes) decorated 0..3 times (InterceptServer directly or through WithInterceptor) with every nil/non-nil unary/stream combination, plus a transport-level interceptor pair, behaviours {pass, short-circuit, fail, rewrite} at one layer; every method is called on carriers {direct handler call, HandlerMap via WithInterceptor, in-process channel, HTTP server}; oracle: ordered enter/exit/handler log vs the trace computed from the configuration, info fields, pass-through identity, descriptor snapshot before/after; distinct = distinct configurations")
-	n := e.N(250, 2500)
+	n := e.N(1500, 25000)
 	e.Cases("cfg", n, func(i int, r *rand.Rand) {
 		log := &c16log{}
 		svc := &c16Svc{log: log}
